@@ -303,3 +303,10 @@ def check(ctx):
     r4.check(set(rr) == {'transfer-ownership', 'skip', 'nullable'} and gsa.equiv(base_ok, gsa.conj(A_('%s.nullable' % rp), gsa.neg(A_('%s.not_nullable' % rp)))) and
              any(t == '%s.transfer' % rp for c, t in rr.get('transfer-ownership', [])), 'return-value attributes', wrel, WR.func.lineno,
              'return-value rows: %s' % dict((k, [(t, gsa.show(c)) for c, t in v]) for k, v in rr.items()), detail=sorted(rr))
+
+    # ------------------------------------------------------------------ R5 multi-line annotations (shared with C10.R3)
+    from . import c10
+    rx_ = ctx.rule('R5', 'annotations continued on a following line extend (never replace) those already parsed', floor=4)
+    c10.continuation_rule(ctx, rx_)
+    rk = ctx.rule('R6', '(attributes key=value): values may contain "="; options split at the first "=" only', floor=3)
+    c10.kv_split_rule(ctx, rk)
